@@ -270,7 +270,7 @@ impl Qcow2Header {
             return Err("Not a qcow2 file".into());
         }
 
-        if header.version < 2 {
+        if header.version < 2 || header.version > 3 {
             let v = header.version;
             return Err(format!("qcow2 v{v} is not supported").into());
         }
@@ -285,6 +285,30 @@ impl Qcow2Header {
             header.compatible_features = 0;
             header.autoclear_features = 0;
             header.compression_type = 0;
+        }
+
+        // encrypted image can't be handled, and it must not be read as plain data
+        if header.crypt_method != 0 {
+            let m = header.crypt_method;
+            return Err(format!("qcow2 crypt method {m} is not supported").into());
+        }
+
+        let refcount_order = header.refcount_order;
+        if refcount_order > 6 {
+            return Err(format!("qcow2 refcount_order {refcount_order} is invalid").into());
+        }
+
+        if header.version >= 3 {
+            let header_length = header.header_length;
+            if header_length < 104 || header_length % 8 != 0 {
+                return Err(format!("qcow2 header length {header_length} is invalid").into());
+            }
+
+            // the compression type field only exists in one longer header
+            if header_length > 104 && header.compression_type != 0 {
+                let t = header.compression_type;
+                return Err(format!("qcow2 compression type {t} is not supported").into());
+            }
         }
 
         let cluster_bits = header.cluster_bits;
